@@ -53,6 +53,9 @@ CHECKS = {
  "C17": dict(engine="simrt+refcodec", cat="exploration", ref="DESIGN.md 5/C17",
    text="Seeded search over RDB files (every classic encoding, binary keys, special scores, scripts) x 1-8 parallel decoders x interleavings of parser, decoders and writer, through the real decode mode on real files; the multiset of printed elements must equal the reference decoding.",
    tech="deterministic simulation: scheduled decoder pool over real files; reference RDB writer/decoder as generator and oracle"),
+ "C12": dict(engine="simrt+refcodec+modelredis", cat="exploration", ref="DESIGN.md 5/C12",
+   text="Seeded input search: logical values through EncodeDump/DecodeDump and the reference (Redis-semantics) decoder, loader payloads of every compact encoding through DecodeDump, the in-repo cupcake encoder, and files written by the tool's Encoder restored through a simulated restore run into a target model. Three of the four parts are pure functions (no scheduler involvement).",
+   tech="seeded generation with reference codecs as oracle; deterministic simulation only for the file-through-restore part"),
  "C18": dict(engine="simrt", cat="exploration", ref="DESIGN.md 5/C18",
    text="Seeded search over writer/reader/closer scripts and lock-granularity interleavings of the real backlog ring against an absolute-offset log model (interval semantics for in-flight writes), with lost-wake-up analysis at quiescence.",
    tech="deterministic simulation: tape-driven baton scheduler over instrumented locks/conds + absolute-offset log model"),
